@@ -123,6 +123,134 @@ fn ctx_of<'a>(name: &str, register: &'a Method) -> PrintCtx<'a> {
     }
 }
 
+
+/// print a typed header through Headers, parse it back through parse_complete + Headers, print again:
+/// T1 = printed value, D = "same" when the Debug form of the parsed value equals the original's, T2 = reprint
+fn typed_rt<H>(name: Name, v: &H) -> String
+where
+    H: sip_types::header::DecodeValues + sip_types::header::ExtendValues + std::fmt::Debug,
+{
+    let mut h = Headers::new();
+    h.insert_type(name.clone(), v);
+    let t1 = h.to_string();
+    let msg = format!("OPTIONS sip:x SIP/2.0\r\n{}\r\n", t1);
+    let parsed = match parse_complete(Parser::default(), msg.as_bytes()) {
+        Ok(CompleteItem::Sip { headers, .. }) => headers,
+        _ => return format!("T1={}\tD=UNPARSED-MESSAGE", hex(t1.as_bytes())),
+    };
+    match parsed.get::<H>(name.clone()) {
+        Ok(v2) => {
+            let mut h2 = Headers::new();
+            h2.insert_type(name, &v2);
+            let d1 = format!("{:?}", v);
+            let d2 = format!("{:?}", v2);
+            format!("T1={}\tD={}\tT2={}", hex(t1.as_bytes()), if d1 == d2 { "same".to_string() } else { format!("{}<>{}", hex(d1.as_bytes()), hex(d2.as_bytes())) }, hex(h2.to_string().as_bytes()))
+        }
+        Err(_) => format!("T1={}\tD=ERR", hex(t1.as_bytes())),
+    }
+}
+
+fn bs(s: &str) -> BytesStr {
+    BytesStr::from(s.to_string())
+}
+
+fn opt_bs(s: &str) -> Option<BytesStr> {
+    if s == "-" { None } else { Some(bs(&unhx(s))) }
+}
+
+fn algorithm_of(s: &str) -> Algorithm {
+    match s {
+        "MD5" => Algorithm::MD5,
+        "MD5-sess" => Algorithm::MD5Sess,
+        "SHA-256" => Algorithm::SHA256,
+        "SHA-256-sess" => Algorithm::SHA256Sess,
+        "SHA-512-256" => Algorithm::SHA512256,
+        "SHA-512-256-sess" => Algorithm::SHA512256Sess,
+        o => Algorithm::Other(bs(o)),
+    }
+}
+
+fn qop_of(s: &str) -> QopOption {
+    match s {
+        "auth" => QopOption::Auth,
+        "auth-int" => QopOption::AuthInt,
+        o => QopOption::Other(bs(o)),
+    }
+}
+
+/// typed headers outside name-addr / numbers: fields separated by '|', strings hex encoded
+fn run_typed(kind: &str, spec: &str) -> String {
+    let f: Vec<&str> = spec.split('|').collect();
+    match kind {
+        "authr" => {
+            // user | realm | nonce | uri | response | algorithm | opaque | qop | cnonce | nc | userhash | proxy
+            let v = AuthResponse::Digest(DigestResponse {
+                username: Username::new(bs(&unhx(f[0]))),
+                realm: bs(&unhx(f[1])),
+                nonce: bs(&unhx(f[2])),
+                uri: bs(&unhx(f[3])),
+                response: bs(&unhx(f[4])),
+                algorithm: algorithm_of(f[5]),
+                opaque: opt_bs(f[6]),
+                qop_response: if f[7] == "-" { None } else { Some(QopResponse { qop: qop_of(f[7]), cnonce: bs(&unhx(f[8])), nc: f[9].parse().unwrap() }) },
+                userhash: f[10] == "1",
+                other: vec![],
+            });
+            typed_rt(if f[11] == "1" { Name::PROXY_AUTHORIZATION } else { Name::AUTHORIZATION }, &v)
+        }
+        "authc" => {
+            // realm | domain | nonce | opaque | stale | algorithm | qop list (comma) | userhash | proxy
+            let v = AuthChallenge::Digest(DigestChallenge {
+                realm: bs(&unhx(f[0])),
+                domain: opt_bs(f[1]),
+                nonce: bs(&unhx(f[2])),
+                opaque: opt_bs(f[3]),
+                stale: f[4] == "1",
+                algorithm: algorithm_of(f[5]),
+                qop: f[6].split(',').filter(|x| !x.is_empty()).map(qop_of).collect(),
+                userhash: f[7] == "1",
+                other: vec![],
+            });
+            typed_rt(if f[8] == "1" { Name::PROXY_AUTHENTICATE } else { Name::WWW_AUTHENTICATE }, &v)
+        }
+        "via" => {
+            // transport | host | port | params
+            let v = Via { transport: bs(f[0]), sent_by: HostPort { host: host_of(f[1]), port: if f[2] == "-" { None } else { Some(f[2].parse().unwrap()) } }, params: params_of::<CPS>(f[3]) };
+            typed_rt(Name::VIA, &v)
+        }
+        "replaces" => {
+            let v = Replaces { call_id: bs(&unhx(f[0])), from_tag: bs(&unhx(f[1])), to_tag: bs(&unhx(f[2])), early_only: f[3] == "1" };
+            typed_rt(Name::REPLACES, &v)
+        }
+        "retry" => {
+            let mut v = RetryAfter::new(f[0].parse().unwrap());
+            v.params = params_of::<CPS>(f[1]);
+            v.comment = opt_bs(f[2]);
+            typed_rt(Name::RETRY_AFTER, &v)
+        }
+        "substate" => {
+            let state = match f[0] { "active" => SubStateValue::Active, "pending" => SubStateValue::Pending, _ => SubStateValue::Terminated };
+            let reason = match f[2] {
+                "-" => None,
+                "deactivated" => Some(EventReasonValue::Deactivated), "probation" => Some(EventReasonValue::Probation), "rejected" => Some(EventReasonValue::Rejected),
+                "timeout" => Some(EventReasonValue::Timeout), "giveup" => Some(EventReasonValue::GiveUp), "noresource" => Some(EventReasonValue::NoResource),
+                "invariant" => Some(EventReasonValue::Invariant), o => Some(EventReasonValue::Other(bs(o))),
+            };
+            let v = SubscriptionState { state, expires: f[1].parse().ok(), reason, retry_after: f[3].parse().ok(), params: params_of::<CPS>(f[4]) };
+            typed_rt(Name::SUBSCRIPTION_STATE, &v)
+        }
+        "callid" => typed_rt(Name::CALL_ID, &CallID(bs(&unhx(f[0])))),
+        "ctype" => typed_rt(Name::CONTENT_TYPE, &ContentType(bs(&unhx(f[0])))),
+        "event" => typed_rt(Name::EVENT, &Event(bs(&unhx(f[0])))),
+        "supported" => typed_rt(Name::SUPPORTED, &f[0].split(',').filter(|x| !x.is_empty()).map(|x| Supported(bs(x))).collect::<Vec<_>>()),
+        "require" => typed_rt(Name::REQUIRE, &f[0].split(',').filter(|x| !x.is_empty()).map(|x| Require(bs(x))).collect::<Vec<_>>()),
+        "allow" => typed_rt(Name::ALLOW, &f[0].split(',').filter(|x| !x.is_empty()).map(|x| Allow(Method::from(x))).collect::<Vec<_>>()),
+        "allowev" => typed_rt(Name::ALLOW_EVENTS, &f[0].split(',').filter(|x| !x.is_empty()).map(|x| AllowEvents(bs(x))).collect::<Vec<_>>()),
+        "accept" => typed_rt(Name::ACCEPT, &f[0].split(',').filter(|x| !x.is_empty()).map(|x| Accept(bs(x))).collect::<Vec<_>>()),
+        other => format!("bad typed kind {}", other),
+    }
+}
+
 pub fn run(cases: &[Vec<String>]) {
     for case in cases {
         let id = case[0].clone();
@@ -233,6 +361,7 @@ fn run_case(case: &[String]) -> String {
             let k = known.iter().position(|x| *x == m);
             format!("P={}\tK={}", hex(m.to_string().as_bytes()), k.map(|i| i.to_string()).unwrap_or("-".into()))
         }
+        "typed" => run_typed(case[3].as_str(), case[4].as_str()),
         "num" => {
             // kind and decimal arguments; printed through Headers, parsed back through Headers
             let a: Vec<&str> = case[4].split(',').collect();
